@@ -390,7 +390,7 @@ func VerifStoreSyncMsg() {
 //
 // params: dels (0: no deletes, 1: delete of entry lo1, 2: + delete of entry lo10 and of lo1/mtu),
 // chunk (1: also one notification carrying both mtu updates).
-func v13Options(sc *vScenario, inCycle bool, tag string) []*v13Msg {
+func v13Options(sc *vScenario, inCycle bool) []*v13Msg {
 	var out []*v13Msg
 	if inCycle {
 		out = append(out, &v13Msg{kind: v13End})
@@ -468,7 +468,7 @@ func VerifSync() {
 	var msgs []*v13Msg
 	for i := 0; i < n; i++ {
 		tag := "m" + string(rune('0'+i))
-		opts := v13Options(sc, m.inCycle, tag)
+		opts := v13Options(sc, m.inCycle)
 		msg := opts[verifrt.Choice(tag, len(opts))]
 		if msg.kind == v13Update {
 			msg.val = msg.leaf.newVal(tag + ".val")
